@@ -67,6 +67,8 @@ func runCacheCase(cs *cacheCase) {
 	}
 	c := b.Build()
 	shadow := map[int64]int64{} // what a lookup is entitled to return
+	setAt := map[int64]int64{}  // virtual time of the last Set of each key
+	var vnow int64
 	closed := false
 	take := func(expect int) [][2]int64 {
 		if !cs.Sync {
@@ -162,6 +164,10 @@ func runCacheCase(cs *cacheCase) {
 		}
 		// ---- property monitor (independent of the Coq model)
 		for _, e := range ev {
+			if _, ok := shadow[e[0]]; ok && op.K == "get" && cs.Sync && cs.Expiry > 0 && vnow-setAt[e[0]] < cs.Expiry {
+				// a lookup evicts nothing for capacity: a callback during Get can only be an expiry, and this entry has not expired
+				viol("op %d: eviction callback for key %d during Get although it was last set %d ns ago (expiry %d ns): the entry was still retrievable", i, e[0], vnow-setAt[e[0]], cs.Expiry)
+			}
 			if v, ok := shadow[e[0]]; !ok {
 				viol("op %d: callback for key %d which is not (or no longer) in the cache", i, e[0])
 			} else if v != e[1] {
@@ -170,9 +176,12 @@ func runCacheCase(cs *cacheCase) {
 			delete(shadow, e[0])
 		}
 		switch op.K {
+		case "adv":
+			vnow += op.A
 		case "set":
 			if !closed {
 				shadow[op.A] = op.V
+				setAt[op.A] = vnow
 			}
 		case "get":
 			want, ok := shadow[op.A]
@@ -181,6 +190,9 @@ func runCacheCase(cs *cacheCase) {
 			}
 			if ob.R == "miss" && ok && !(cs.Expiry > 0) {
 				viol("op %d: Get(%d) missed although the key was set and never reported evicted/deleted", i, op.A)
+			}
+			if ob.R == "miss" && ok && cs.Expiry > 0 && vnow-setAt[op.A] < cs.Expiry {
+				viol("op %d: Get(%d) missed although the key was last set %d ns ago (expiry %d ns) and never reported evicted/deleted", i, op.A, vnow-setAt[op.A], cs.Expiry)
 			}
 		case "del":
 			delete(shadow, op.A)
